@@ -153,8 +153,9 @@ class UdpRig:
             return "ok"
         except asyncio.TimeoutError:
             row = proc_udp_row(port)
-            if row and row["drops"] > 0:
-                self.kernel_drops += row["drops"]
+            if row and (row["drops"] > 0 or row["rx_queue"] > 0):
+                # dropped by the kernel, or still queued because the loop was starved: no verdict either way
+                self.kernel_drops += max(1, row["drops"])
                 return "dropped"
             return "lost"
         finally:
